@@ -429,6 +429,18 @@ var Injectors = []injector{
 		d.Body = nb
 		return &Fault{Class: "undefined:type-in-path-schema", Msg: []string{"not found"}, DirID: d.ID}
 	}},
+	{"undefined:type-in-path-schema-of-childless-url", func(r Rnd, tree *[]*Dir, ids *int) *Fault {
+		// a URL that has a Path directive and no method: no interaction ever uses the Path schema
+		*ids++
+		p := &Dir{ID: *ids, Kw: "Path", BodyKind: "schema", Body: []string{"{", `  "zq": @undefinedType | @undefinedOther`, "}"}}
+		*ids++
+		u := &Dir{ID: *ids, Kw: "URL", Params: []Param{bare("/zz-childless/{zq}")}, Children: []*Dir{p}}
+		at := 1 + r.Intn(len(*tree))
+		nl := append([]*Dir(nil), (*tree)[:at]...)
+		nl = append(nl, u)
+		*tree = append(nl, (*tree)[at:]...)
+		return &Fault{Class: "undefined:type-in-path-schema-of-childless-url", Msg: []string{"not found"}, DirID: p.ID}
+	}},
 	{"undefined:type-key-shortcut-in-path", func(r Rnd, tree *[]*Dir, ids *int) *Fault {
 		// a property whose key is an undefined type, next to the properties that describe the path variables
 		cands, _ := collect(*tree, func(d, p *Dir) bool {
